@@ -210,3 +210,7 @@ def run(ctx):
     # an absent resource that is still held by a working task must stay ABSENCE (no progress, no cost, ABSENCE in the log)
     from .C03 import r3_4
     r3_4(ctx)
+    # third clause: deleting the project-wide absence steps (remove_absence_time_list) gives the run without absence -- the editors
+    # must take exactly those steps out of every log and out of project.time
+    from .C18 import check as absence_editors
+    absence_editors(ctx)
